@@ -65,7 +65,7 @@ func allGarbagePairs(seed int64) []scen {
 	var out []scen
 	for i, gi := range G {
 		for j, gr := range G {
-			out = append(out, scen{gI: gi, gR: gr, dI: (i + j + int(uint64(seed)%3)) % 3, dR: (i + 2*j) % 3, hello: "v2"})
+			out = append(out, scen{gI: gi, gR: gr, dI: (i + j + int(uint64(seed)%3)) % 3, dR: (i + 2*j) % 3, hello: "v2", noFaults: true})
 		}
 	}
 	return out
@@ -171,18 +171,39 @@ func (j *job) run(ctx *vrun.Ctx, st *stats) error {
 				groups[id] = append(groups[id], p)
 			}
 			sort.Strings(order)
-			quota := j.maxPaths / len(order)
-			if quota < 1 {
-				quota = 1
+			// equal shares; what small groups do not use goes to the large ones
+			take := map[string]int{}
+			left := j.maxPaths
+			for open := len(order); open > 0 && left > 0; {
+				share := left / open
+				if share < 1 {
+					share = 1
+				}
+				open = 0
+				for _, id := range order {
+					room := len(groups[id]) - take[id]
+					if room <= 0 || left <= 0 {
+						continue
+					}
+					n := share
+					if n > room {
+						n = room
+					}
+					if n > left {
+						n = left
+					}
+					take[id] += n
+					left -= n
+					if take[id] < len(groups[id]) {
+						open++
+					}
+				}
 			}
 			var sel [][]tlc.Step
 			for _, id := range order {
 				g := groups[id]
 				rng.Shuffle(len(g), func(a, b int) { g[a], g[b] = g[b], g[a] })
-				if len(g) > quota {
-					g = g[:quota]
-				}
-				sel = append(sel, g...)
+				sel = append(sel, g[:take[id]]...)
 			}
 			paths = sel
 			seen := map[string]bool{}
